@@ -353,10 +353,13 @@ func (dec *decoder) decodeOneofInner(oneof j5reflect.Oneof) error {
 		if err != nil {
 			return newFieldError(keyTokenStr, "no such key")
 		}
-		foundKeys = append(foundKeys, keyTokenStr)
-
 		if err := dec.decodeValue(matchedProperty); err != nil {
 			return err
+		}
+
+		// an explicit null is an absent member, not a second key.
+		if matchedProperty.IsSet() {
+			foundKeys = append(foundKeys, keyTokenStr)
 		}
 
 		return nil
